@@ -67,6 +67,16 @@ pub fn production() -> Config {
     Config { flags: 0, sampling: Sampling::Production, jitter_seed: 0 }
 }
 
+/// Which expansions of [crate::tree::HNode::frontier_tasks] model a pass of the given method
+pub fn frontier_modes(method: SolveMethod) -> &'static [crate::tree::Frontier] {
+    use crate::tree::Frontier;
+    match method {
+        SolveMethod::Full => &[Frontier::Full],
+        SolveMethod::Sampled => &[Frontier::Sampled],
+        _ => &[Frontier::External(0), Frontier::External(1)],
+    }
+}
+
 pub fn run(prep: &Prepared, cfg: &Cfg, hook: Option<Config>) -> Outcome {
     let hooked = hook.is_some();
     if let Some(h) = hook {
